@@ -2,6 +2,8 @@ import GrinVerif.Lemmas.ChainBasic
 import GrinVerif.Lemmas.ChainExampleFacts
 import GrinVerif.Lemmas.ChainApply
 import GrinVerif.Lemmas.ChainImplRefine
+import GrinVerif.Lemmas.ChainMoreReject
+import GrinVerif.Lemmas.ChainMoreExamples
 /-! # C02 — every input spends an existing unspent output exactly once, on every fork
 
 Two layers. `Model/Chain.lean` *defines* the unspent set of a block by replay of its own path from
@@ -202,6 +204,210 @@ theorem valid_body_has_output (p : Params) (outs : List OutDef) (b : Blk) (iv : 
     (h : validateBody p outs b iv = none) (hpos : 0 < p.reward) : b.outs ≠ [] :=
   outs_ne_nil_of_coinbase p outs b (validateBody_none p outs b iv h).2.2.2.1 (by omega)
 
+/-! ## delivery histories (`deliverBlock` = `Chain::process_block`, `run` = any finite history)
+
+`Refused p n b` (`Lemmas/ChainMoreReject.lean`): the delivery of `b` to `n` returns an error and
+head, stored blocks and the reported unspent set are what they were. `HeadPath`, `IsPath`
+(`Lemmas/ChainMorePath.lean`): the explicit path of a block that is valid on its own path. -/
+
+/-- **Every accepted block, on every fork, at all times.** After any delivery history from a fresh
+node (forks, reorganisations in both directions, orphans connected later, duplicates, refused
+blocks), every stored block other than the genesis has pairwise distinct inputs and pairwise
+distinct outputs, does not spend its own outputs, and — against the replayed state `sPar` of *its
+own* parent, the fork it extends — every input is unspent and no output duplicates an unspent
+commitment. -/
+theorem stored_blocks_spend_unspent (p : Params) (n : Node) (es : List Event) (hf : Fresh n)
+    (hreg : Registered n es) (b : Blk) (hb : n.blk b.id = some b) (h0 : b.id ≠ 0)
+    (hs : b.id ∈ (run p n es).stored) :
+    ∃ par sPar, b.parent = some par ∧ par ∈ (run p n es).stored ∧ n.stateAt p par = .ok sPar ∧
+      b.ins.Nodup ∧ (b.outs.map (·.1)).Nodup ∧ cutThroughViolation b = false ∧
+      (∀ i ∈ b.ins, sPar.has i = true) ∧ (∀ o ∈ b.outs, sPar.has o.1 = false) := by
+  have hi := run_preserved (preserved_inv p) n es hreg (hf.inv p)
+  have hdf := run_defs p n es
+  have hv : VOP p n b.id := (VOP_congr hdf.2 hdf.1 p b.id).mp (hi.2.valid b.id hs)
+  obtain ⟨par, s', hpar, _, _, hc⟩ := hv.inv hb h0
+  obtain ⟨sPar, hst, hvb, hab⟩ := checkBlock_ok p n b par s' hc
+  obtain ⟨h1, h2, _⟩ := applyBlock_ok p sPar s' b hab
+  obtain ⟨n1, n2⟩ := validateBody_none_nodup p n.outs b _ hvb
+  exact ⟨par, sPar, hpar,
+    hi.2.closed.parent b.id hs b par (by rw [blk_congr hdf.1]; exact hb) hpar, hst, n1, n2,
+    (validateBody_none p n.outs b _ hvb).1, h1, h2⟩
+
+/-- **The reported unspent set is the replay of the winning chain** (`utxo_eq_replay` over
+histories). After any delivery history from a fresh node whose genesis outputs are distinct: the
+path of the head exists, `replay` accepts it, and the set the node reports as unspent is exactly
+the unspent set of that replay, each commitment once — whatever was applied and rewound on the way. -/
+theorem reported_is_replay_of_head_path (p : Params) (n : Node) (es : List Event) (hf : Fresh n)
+    (hreg : Registered n es) (g : Blk) (hg : n.blk 0 = some g) (hgo : (g.outs.map (·.1)).Nodup) :
+    ∃ rest s, (run p n es).path (run p n es).head = some (g :: rest) ∧
+      replay p (genesisState g) rest = .ok s ∧
+      (run p n es).reportedUtxo p = s.utxo.map (·.1) ∧ ((run p n es).reportedUtxo p).Nodup ∧
+      ∀ c, c ∈ (run p n es).reportedUtxo p ↔ s.has c = true := by
+  obtain ⟨rest, s, H, hst⟩ := head_path_after_run p n es hf hreg g hg
+  have hrep : (run p n es).reportedUtxo p = s.utxo.map (·.1) := by
+    unfold Node.reportedUtxo; rw [hst]
+  have hnd0 : ((genesisState g).utxo.map (·.1)).Nodup := by
+    simp only [genesisState, List.map_map]; exact hgo
+  have hnd := (replay_value p n.outs rest _ s hnd0 H.replay (fun b h =>
+    ⟨sane_of_validateBody p n.outs b _ (H.valid b h).1,
+     (validateBody_none p n.outs b _ (H.valid b h).1).2.2.2.2⟩)).2
+  refine ⟨rest, s, by rw [path_congr (run_defs p n es).1]; exact H.path, H.replay, hrep,
+    hrep ▸ hnd, ?_⟩
+  intro c
+  rw [hrep, has_iff_mem]
+
+open TxHS in
+/-- … and the incremental txhashset folded along the head's path (`Model/ChainImpl.lean`, what
+the node keeps and what the driver runs next to it) reports that same set. -/
+theorem reported_is_impl_of_head_path (p : Params) (n : Node) (es : List Event) (hf : Fresh n)
+    (hreg : Registered n es) (g : Blk) (hg : n.blk 0 = some g) (hgi : g.ins = [])
+    (hgo : (g.outs.map (·.1)).Nodup) :
+    ∃ rest S, (run p n es).path (run p n es).head = some (g :: rest) ∧
+      applyBlocks {} (g :: rest) = .ok S ∧ RInv S ∧
+      ∀ c, c ∈ S.reported ↔ c ∈ (run p n es).reportedUtxo p := by
+  obtain ⟨rest, s, H, hst⟩ := head_path_after_run p n es hf hreg g hg
+  obtain ⟨S, hS, hi, _, hrep⟩ := impl_refines_replay_validated p n.outs g rest s hgi hgo
+    (fun b hb => ⟨_, (H.valid b hb).1⟩) H.replay
+  refine ⟨rest, S, by rw [path_congr (run_defs p n es).1]; exact H.path, hS, hi, ?_⟩
+  intro c
+  rw [hrep c]
+  unfold Node.reportedUtxo
+  rw [hst]
+
+/-- **Double spend within a block**: a block that names the same output twice among its inputs (or
+creates the same commitment twice) is refused by every node in every state. -/
+theorem double_spend_in_block_refused (p : Params) (n : Node) (b : Blk)
+    (h : ¬ b.ins.Nodup ∨ ¬ (b.outs.map (·.1)).Nodup) : Refused p n b := by
+  apply refused_of_body_fault
+  intro hv
+  obtain ⟨h1, h2⟩ := validateBody_none_nodup p n.outs b _ hv
+  rcases h with h | h
+  · exact h h1
+  · exact h h2
+
+/-- **Spend of an output that is not unspent in the state of the block's own parent** — for
+whatever reason — is refused. -/
+theorem spend_of_missing_output_refused (p : Params) (n : Node) (b : Blk) (par : Nat) (sPar : UState)
+    (hpar : b.parent = some par) (hst : n.stateAt p par = .ok sPar) (i : Nat) (hi : i ∈ b.ins)
+    (hm : sPar.has i = false) : Refused p n b := by
+  apply refused_of_state_fault
+  intro par' sPar' hpar' hst' hn
+  rw [hpar] at hpar'
+  cases hpar'
+  rw [hst] at hst'
+  cases hst'
+  have := ((stateChecks_none_iff p sPar b).mp hn).1
+  have := List.all_eq_true.mp this i hi
+  rw [hm] at this; cases this
+
+/-- **Double spend across blocks on the same path.** `par` is valid on its own path `g :: rest`
+(every stored block is), some block `a` of that path spends `i` and no later block of the path
+re-creates the commitment: a child of `par` spending `i` again is refused — by any node over this
+block tree, in any state, after any history. -/
+theorem double_spend_across_blocks_refused (p : Params) (n N : Node) (hbl : N.blks = n.blks)
+    (g : Blk) (par : Nat) (rest : List Blk) (sPar : UState) (H : HeadPath p n g par rest sPar)
+    (pre post : List Blk) (a : Blk) (hsplit : rest = pre ++ a :: post) (i : Nat) (ha : i ∈ a.ins)
+    (hpost : ∀ c ∈ post, i ∉ c.outs.map (·.1)) (b : Blk) (hpar : b.parent = some par)
+    (hi : i ∈ b.ins) : Refused p N b := by
+  have hct : cutThroughViolation a = false :=
+    (validateBody_none p n.outs a _ (H.valid a (by rw [hsplit]; simp)).1).1
+  have hm : sPar.has i = false :=
+    replay_has_of_spent p pre post a _ sPar i (hsplit ▸ H.replay) ha hct hpost
+  exact spend_of_missing_output_refused p N b par sPar hpar
+    (by rw [stateAt_congr hbl]; exact H.state) i hi hm
+
+/-- **Spend of an output that exists only on another fork.** No block on the path of `par`
+(genesis included) creates `i` — other registered or stored blocks may: a child of `par` spending
+`i` is refused. -/
+theorem fork_foreign_spend_refused (p : Params) (n N : Node) (hbl : N.blks = n.blks)
+    (g : Blk) (par : Nat) (rest : List Blk) (sPar : UState) (H : HeadPath p n g par rest sPar)
+    (i : Nat) (hg : i ∉ g.outs.map (·.1)) (hrest : ∀ c ∈ rest, i ∉ c.outs.map (·.1))
+    (b : Blk) (hpar : b.parent = some par) (hi : i ∈ b.ins) : Refused p N b := by
+  have h0 : (genesisState g).has i = false := by
+    cases h : (genesisState g).has i with
+    | false => rfl
+    | true => exact absurd ((genesisState_has_iff g i).mp h) hg
+  have hm : sPar.has i = false :=
+    replay_has_of_never_created p rest _ sPar i H.replay h0 hrest
+  exact spend_of_missing_output_refused p N b par sPar hpar
+    (by rw [stateAt_congr hbl]; exact H.state) i hi hm
+
+/-- **Duplicate of an unspent commitment** (coinbase or not): some block `c` of the path of `par`
+created the commitment `o` and no later block of the path spent it: a child of `par` creating `o`
+again is refused. -/
+theorem duplicate_unspent_refused (p : Params) (n N : Node) (hbl : N.blks = n.blks)
+    (g : Blk) (par : Nat) (rest : List Blk) (sPar : UState) (H : HeadPath p n g par rest sPar)
+    (pre post : List Blk) (c : Blk) (hsplit : rest = pre ++ c :: post) (o : Nat)
+    (hc : o ∈ c.outs.map (·.1)) (hpost : ∀ d ∈ post, o ∉ d.ins) (b : Blk)
+    (hpar : b.parent = some par) (ho : o ∈ b.outs.map (·.1)) : Refused p N b := by
+  have hm : sPar.has o = true :=
+    replay_has_of_created p pre post c _ sPar o (hsplit ▸ H.replay) hc hpost
+  apply refused_of_state_fault
+  intro par' sPar' hpar' hst' hn
+  rw [hpar] at hpar'
+  cases hpar'
+  rw [stateAt_congr hbl, H.state] at hst'
+  cases hst'
+  have hd := ((stateChecks_none_iff p sPar b).mp hn).2.2.1
+  obtain ⟨x, hx, hxo⟩ := List.mem_map.mp ho
+  have : dupOutput sPar b = true := List.any_eq_true.mpr ⟨x, hx, by rw [hxo]; exact hm⟩
+  rw [this] at hd; cases hd
+
+/-- … the same for a commitment still unspent since the genesis. -/
+theorem duplicate_unspent_genesis_refused (p : Params) (n N : Node) (hbl : N.blks = n.blks)
+    (g : Blk) (par : Nat) (rest : List Blk) (sPar : UState) (H : HeadPath p n g par rest sPar)
+    (o : Nat) (hc : o ∈ g.outs.map (·.1)) (hrest : ∀ d ∈ rest, o ∉ d.ins) (b : Blk)
+    (hpar : b.parent = some par) (ho : o ∈ b.outs.map (·.1)) : Refused p N b := by
+  have hm : sPar.has o = true :=
+    replay_has_of_unspent_since p rest _ sPar o H.replay ((genesisState_has_iff g o).mpr hc) hrest
+  apply refused_of_state_fault
+  intro par' sPar' hpar' hst' hn
+  rw [hpar] at hpar'
+  cases hpar'
+  rw [stateAt_congr hbl, H.state] at hst'
+  cases hst'
+  have hd := ((stateChecks_none_iff p sPar b).mp hn).2.2.1
+  obtain ⟨x, hx, hxo⟩ := List.mem_map.mp ho
+  have : dupOutput sPar b = true := List.any_eq_true.mpr ⟨x, hx, by rw [hxo]; exact hm⟩
+  rw [this] at hd; cases hd
+
+/-- the path hypotheses of the four theorems above are available for every stored block after any
+history -/
+theorem stored_has_headPath (p : Params) (n : Node) (es : List Event) (hf : Fresh n)
+    (hreg : Registered n es) (g : Blk) (hg : n.blk 0 = some g) (par : Nat)
+    (hs : par ∈ (run p n es).stored) : ∃ rest sPar, HeadPath p n g par rest sPar := by
+  have hi := run_preserved (preserved_inv p) n es hreg (hf.inv p)
+  have hdf := run_defs p n es
+  exact vop_headPath p n g hg (hf.genesis g hg)
+    ((VOP_congr hdf.2 hdf.1 p par).mp (hi.2.valid par hs))
+
+/-- **Re-spend after a reorganisation un-spends.** After any delivery history: if the commitment
+`o` was created by a block `c` of the *current* head's path (or by the genesis) and no later block
+of that path spends it, then `o` is in the reported unspent set and the input check of a new block
+on the head passes for it — no matter which stored blocks outside the head's path (the branch that
+was the best chain before and was rewound) spent it. -/
+theorem unspent_again_after_reorg (p : Params) (n : Node) (es : List Event) (hf : Fresh n)
+    (hreg : Registered n es) (g : Blk) (hg : n.blk 0 = some g) :
+    ∃ rest s, (run p n es).path (run p n es).head = some (g :: rest) ∧
+      (run p n es).stateAt p (run p n es).head = .ok s ∧
+      (∀ o, o ∈ g.outs.map (·.1) → (∀ d ∈ rest, o ∉ d.ins) →
+        s.has o = true ∧ o ∈ (run p n es).reportedUtxo p) ∧
+      (∀ pre c post o, rest = pre ++ c :: post → o ∈ c.outs.map (·.1) → (∀ d ∈ post, o ∉ d.ins) →
+        s.has o = true ∧ o ∈ (run p n es).reportedUtxo p) := by
+  obtain ⟨rest, s, H, hst⟩ := head_path_after_run p n es hf hreg g hg
+  have hrep : ∀ o, s.has o = true → o ∈ (run p n es).reportedUtxo p := by
+    intro o ho
+    unfold Node.reportedUtxo
+    rw [hst]
+    exact (has_iff_mem s o).mp ho
+  refine ⟨rest, s, by rw [path_congr (run_defs p n es).1]; exact H.path, hst, ?_, ?_⟩
+  · intro o ho hn
+    have := replay_has_of_unspent_since p rest _ s o H.replay ((genesisState_has_iff g o).mpr ho) hn
+    exact ⟨this, hrep o this⟩
+  · intro pre c post o hsplit ho hn
+    have := replay_has_of_created p pre post c _ s o (hsplit ▸ H.replay) ho hn
+    exact ⟨this, hrep o this⟩
+
 /-! ## non-vacuity: the hypotheses hold on the concrete tree of `Lemmas/ChainExamples.lean`
 (0 ── 1 ── 3 ── 4, sibling 2 of 1, invalid child 9 of 1; 3 spends the genesis output 100 and
 4 re-creates that commitment) -/
@@ -241,4 +447,85 @@ example : ∃ P0 S T, applyBlocks {} [G] = .ok P0 ∧ applyBlocks P0 [B1, B3, B4
       T'.reported = T.reported ∧ T'.reported = [102, 100] := ⟨_, _, _, rfl, rfl, rfl, _, rfl, by decide⟩
 
 end Examples
+
+/-! ### the history-level theorems on the tree of `Lemmas/ChainMoreExamples.lean` (a1 spends the
+genesis output 100 and becomes the head; b1 takes over — reorganisation — and 100 is unspent again) -/
+section HistoryExamples
+open GV.Chain.Ex2
+
+-- after a1 the output 100 is spent; after the reorganisation to b1 it is reported unspent again,
+-- although a1 (which spent it) is still stored
+example : NA.reportedUtxo Ex2.P = [111, 112] ∧ NB.head = 11 ∧ 1 ∈ NB.stored ∧
+    NB.reportedUtxo Ex2.P = [100, 121] := ⟨NA_head.2, NB_head.1, by decide, NB_head.2.2⟩
+
+-- `unspent_again_after_reorg`: the hypotheses hold there; and the re-spend b2 is accepted
+example : ∃ rest s, NB.path NB.head = some (Ex2.G :: rest) ∧ NB.stateAt Ex2.P NB.head = .ok s ∧
+    (∀ o, o ∈ Ex2.G.outs.map (·.1) → (∀ d ∈ rest, o ∉ d.ins) →
+      s.has o = true ∧ o ∈ NB.reportedUtxo Ex2.P) ∧
+    (∀ pre c post o, rest = pre ++ c :: post → o ∈ c.outs.map (·.1) → (∀ d ∈ post, o ∉ d.ins) →
+      s.has o = true ∧ o ∈ NB.reportedUtxo Ex2.P) :=
+  unspent_again_after_reorg Ex2.P Ex2.N esReorg Ex2.fresh_N reg_reorg Ex2.G rfl
+example : (deliverBlock Ex2.P NB Ex2.B2).2 = .okHead ∧
+    (deliverBlock Ex2.P NB Ex2.B2).1.reportedUtxo Ex2.P = [121, 131, 132] := by decide
+
+-- `double_spend_across_blocks_refused`: a2 spends 100 again on top of a1
+example : Refused Ex2.P NA Ex2.A2 := by
+  obtain ⟨rest, sPar, H⟩ := stored_has_headPath Ex2.P Ex2.N [.block Ex2.A1] Ex2.fresh_N reg_A1
+    Ex2.G rfl 1 (by decide)
+  have hr : rest = [Ex2.A1] := by
+    have h1 := H.path
+    have h2 : Ex2.N.path 1 = some [Ex2.G, Ex2.A1] := rfl
+    rw [h2] at h1
+    injection h1 with h1
+    injection h1 with _ h1
+    exact h1.symm
+  exact double_spend_across_blocks_refused Ex2.P Ex2.N NA rfl Ex2.G 1 rest sPar H [] [] Ex2.A1
+    (by rw [hr]; rfl) 100 (by decide) (by intro c hc; cases hc) Ex2.A2 rfl (by decide)
+example : (deliverBlock Ex2.P NA Ex2.A2).2 = .err "AlreadySpent" := by decide
+
+-- `double_spend_in_block_refused`: a3 names 112 twice
+example : Refused Ex2.P NA Ex2.A3 := double_spend_in_block_refused Ex2.P NA Ex2.A3 (Or.inl (by decide))
+
+-- `fork_foreign_spend_refused`: b3 (on b1) spends 112, created only by a1 on the other fork
+example : Refused Ex2.P NB Ex2.B3 := by
+  obtain ⟨rest, sPar, H⟩ := stored_has_headPath Ex2.P Ex2.N esReorg Ex2.fresh_N reg_reorg
+    Ex2.G rfl 11 (by decide)
+  have hr : rest = [Ex2.B1] := by
+    have h1 := H.path
+    have h2 : Ex2.N.path 11 = some [Ex2.G, Ex2.B1] := rfl
+    rw [h2] at h1
+    injection h1 with h1
+    injection h1 with _ h1
+    exact h1.symm
+  exact fork_foreign_spend_refused Ex2.P Ex2.N NB rfl Ex2.G 11 rest sPar H 112 (by decide)
+    (by rw [hr]; intro c hc; simp only [List.mem_cons, List.not_mem_nil, or_false] at hc
+        subst hc; decide) Ex2.B3 rfl (by decide)
+
+-- `duplicate_unspent_refused`: b4 re-creates the unspent coinbase commitment 121 of b1
+example : Refused Ex2.P NB Ex2.B4 := by
+  obtain ⟨rest, sPar, H⟩ := stored_has_headPath Ex2.P Ex2.N esReorg Ex2.fresh_N reg_reorg
+    Ex2.G rfl 11 (by decide)
+  have hr : rest = [Ex2.B1] := by
+    have h1 := H.path
+    have h2 : Ex2.N.path 11 = some [Ex2.G, Ex2.B1] := rfl
+    rw [h2] at h1
+    injection h1 with h1
+    injection h1 with _ h1
+    exact h1.symm
+  exact duplicate_unspent_refused Ex2.P Ex2.N NB rfl Ex2.G 11 rest sPar H [] [] Ex2.B1
+    (by rw [hr]; rfl) 121 (by decide) (by intro c hc; cases hc) Ex2.B4 rfl (by decide)
+example : (deliverBlock Ex2.P NB Ex2.B4).2 = .err "DuplicateCommitment" := by decide
+
+-- `stored_blocks_spend_unspent` / `reported_is_replay_of_head_path`: hypotheses hold
+example : ∃ par sPar, Ex2.A1.parent = some par ∧ par ∈ NB.stored ∧ Ex2.N.stateAt Ex2.P par = .ok sPar ∧
+    Ex2.A1.ins.Nodup ∧ (Ex2.A1.outs.map (·.1)).Nodup ∧ cutThroughViolation Ex2.A1 = false ∧
+    (∀ i ∈ Ex2.A1.ins, sPar.has i = true) ∧ (∀ o ∈ Ex2.A1.outs, sPar.has o.1 = false) :=
+  stored_blocks_spend_unspent Ex2.P Ex2.N esReorg Ex2.fresh_N reg_reorg Ex2.A1 rfl (by decide)
+    (by decide)
+example : ∃ rest s, NB.path NB.head = some (Ex2.G :: rest) ∧
+    replay Ex2.P (genesisState Ex2.G) rest = .ok s ∧ NB.reportedUtxo Ex2.P = s.utxo.map (·.1) ∧
+    (NB.reportedUtxo Ex2.P).Nodup ∧ ∀ c, c ∈ NB.reportedUtxo Ex2.P ↔ s.has c = true :=
+  reported_is_replay_of_head_path Ex2.P Ex2.N esReorg Ex2.fresh_N reg_reorg Ex2.G rfl (by decide)
+
+end HistoryExamples
 end GV.Props.C02
